@@ -547,6 +547,12 @@ carquet_status_t carquet_statistics_range_overlaps(
     if (max_value && stats->min_value && stats->min_value_len > 0) {
         int cmp;
         switch (type) {
+            case CARQUET_PHYSICAL_BOOLEAN:
+                cmp = compare_boolean(max_value, stats->min_value);
+                break;
+            case CARQUET_PHYSICAL_INT96:
+                cmp = compare_int96(max_value, stats->min_value);
+                break;
             case CARQUET_PHYSICAL_INT32:
                 cmp = compare_int32(max_value, stats->min_value);
                 break;
@@ -574,6 +580,12 @@ carquet_status_t carquet_statistics_range_overlaps(
     if (min_value && stats->max_value && stats->max_value_len > 0) {
         int cmp;
         switch (type) {
+            case CARQUET_PHYSICAL_BOOLEAN:
+                cmp = compare_boolean(min_value, stats->max_value);
+                break;
+            case CARQUET_PHYSICAL_INT96:
+                cmp = compare_int96(min_value, stats->max_value);
+                break;
             case CARQUET_PHYSICAL_INT32:
                 cmp = compare_int32(min_value, stats->max_value);
                 break;
